@@ -13,6 +13,9 @@ Clauses, loss-free medium:
   undisturbed  no exception ever escapes the master's update(); lookups never change its table
   release      release_address() -> node back at 0o4444 and its lease gone
   connected    check_connection() is True exactly for connected nodes
+The liveness-flavoured parts (send reaches / release frees / check_connection / -1 only without answer) are enforced in the
+serialised runs (one API call at a time, network quiet in between, relay chain intact); the concurrent runs enforce the safety
+parts (valid, distinct, recorded addresses; answers consistent with a table version in force; master undisturbed; termination).
 With injected loss (separate configuration): only `safe` - no exception anywhere, every call terminates within
 timeout + slack, renew_address() returns a valid address or None.
 """
@@ -234,6 +237,10 @@ def _run(scn, w, res):
     def isolated(nid_, c_, types=(196, 198)):
         """no other node was inside an API call while this call ran, and nothing but this call's own frame types was on the
         air (aftermath of earlier calls included): the network is best-effort under concurrent traffic"""
+        if not scn.get("serial"):
+            # only the serialised runs guarantee a quiet network before the call: in the concurrent runs frames of earlier
+            # calls (late replies, link-layer re-transmissions) may still be in flight - best effort applies
+            return False
         if any(n2 != nid_ and a < c_.t1 and b > c_.t0 for (n2, a, b) in spans):
             return False
         me = addr_during(nid_, c_.t0, c_.t0)
